@@ -360,11 +360,12 @@ def var_array(w: dict, v: dict) -> xarray.DataArray:
     dims, shape = var_dims_shape(w, v)
     n = int(numpy.prod(shape)) if shape else 1
     dtype = v.get("dtype", "f8")
-    data = (numpy.arange(n) + v.get("base", 0)).astype("f8" if dtype.startswith("f") else dtype)
+    isfloat = numpy.dtype(dtype).kind == "f"
+    data = (numpy.arange(n) + v.get("base", 0)).astype("f8" if isfloat else dtype)
     attrs = dict(v.get("attrs", {}))
     miss = v.get("missing", [])
     if miss:
-        if dtype.startswith("f"):
+        if isfloat:
             data[miss] = numpy.nan
         else:
             fill = v["fill"]
@@ -630,7 +631,7 @@ def _build_ugrid(w):
             coords["Mesh2_face_x"] = fx; coords["Mesh2_face_y"] = fy
         else:
             data_vars["Mesh2_face_x"] = fx; data_vars["Mesh2_face_y"] = fy
-    if enc.get("coord_sep"):
+    if enc.get("coord_sep") and enc.get("coord_sep_nodes", True):
         # CF blank-separated lists may be separated by any amount of white space
         mesh_attrs["node_coordinates"] = "Mesh2_node_x" + enc["coord_sep"] + "Mesh2_node_y"
     data_vars["Mesh2"] = xarray.DataArray(numpy.int32(0), attrs=mesh_attrs)
